@@ -152,6 +152,8 @@ pub struct DExtra<'a> {
     pub gz: Option<&'a GzFields>,
     /// record H3 abstract states / run H3 invariants (Rs only)
     pub probe: bool,
+    /// after this many deflate calls: deflateCopy, end the original, continue on the copy (0 = never)
+    pub copy_after_call: usize,
 }
 
 pub struct GzHold {
@@ -203,6 +205,11 @@ pub unsafe fn deflate_init<Zx: Z>(s: &mut Strm, cfg: &DCfg) -> i32 {
 
 /// Run one complete compression history. Err = a violated universal obligation of the API
 /// (accounting, documented status, termination); Ok = the trace of observables.
+/// zlib's ordering of flush requests (deflate.c RANK)
+pub fn flush_rank(f: i32) -> i32 {
+    f * 2 - if f > 4 { 9 } else { 0 }
+}
+
 pub fn run_deflate<Zx: Z>(cfg: &DCfg, input: &[u8], sched: &DSched, env: &Env, ex: &DExtra, mut rec: Option<&mut Case>) -> Result<DTrace, String> {
     unsafe {
         let mut s = env.strm();
@@ -266,6 +273,8 @@ pub fn run_deflate<Zx: Z>(cfg: &DCfg, input: &[u8], sched: &DSched, env: &Env, e
         probe!();
 
         // one deflate() call with `room` bytes of output; returns (ret, din, dout, avail_out_after)
+        // rank of the previous deflate call's flush in zlib's order, -1 when that call ended with the output full
+        let mut prev_rank: i32 = -1;
         macro_rules! call_deflate {
             ($flush:expr, $room:expr) => {{
                 let room: usize = if $room == AMPLE { ample } else { $room };
@@ -278,6 +287,10 @@ pub fn run_deflate<Zx: Z>(cfg: &DCfg, input: &[u8], sched: &DSched, env: &Env, e
                 s.z.next_out = pout;
                 s.z.avail_out = room as u32;
                 let (ti0, to0) = (s.z.total_in as u64, s.z.total_out as u64);
+                // "a buffer error only when no progress was possible": with no input, a flush request that ranks
+                // above the previous call's (zlib's order: none < block < partial < sync < full) has a marker to
+                // write, so with room for it the call must not answer Z_BUF_ERROR
+                let must_progress = chunk.is_empty() && room >= 16 && matches!($flush, Z_BLOCK | Z_PARTIAL_FLUSH | Z_SYNC_FLUSH | Z_FULL_FLUSH) && flush_rank($flush) > prev_rank;
                 let ret = Zx::deflate(s.p(), $flush);
                 ncalls += 1;
                 let din = (s.z.next_in as usize).wrapping_sub(pin as usize);
@@ -302,11 +315,26 @@ pub fn run_deflate<Zx: Z>(cfg: &DCfg, input: &[u8], sched: &DSched, env: &Env, e
                     Zx::deflateEnd(s.p());
                     return Err(format!("{}: Z_BUF_ERROR although the call consumed {din} and produced {dout} bytes", Zx::NAME));
                 }
+                if ret == Z_BUF_ERROR && must_progress {
+                    Zx::deflateEnd(s.p());
+                    return Err(format!("{}: deflate(flush={}) with no input and {room} bytes of room returned Z_BUF_ERROR although the previous call's flush ranked lower, so this flush could have been carried out (call {ncalls})", Zx::NAME, $flush));
+                }
+                prev_rank = if room - dout == 0 { -1 } else { flush_rank($flush) };
                 t.out.extend_from_slice(std::slice::from_raw_parts(pout, dout));
                 pos += din;
                 sum_in += din as u64;
                 sum_out += dout as u64;
                 t.calls.push(Call { op: 0, flush: $flush, ret, din: din as u32, dout: dout as u32 });
+                if ex.copy_after_call != 0 && ncalls == ex.copy_after_call && ret != Z_STREAM_END {
+                    let mut d = env.strm();
+                    let r = Zx::deflateCopy(d.p(), s.p());
+                    if r != Z_OK {
+                        Zx::deflateEnd(s.p());
+                        return Err(format!("{}: deflateCopy after call {ncalls} returned {}", Zx::NAME, rc_name(r)));
+                    }
+                    Zx::deflateEnd(s.p());
+                    s = d;
+                }
                 probe!();
                 (ret, din, dout, room - dout)
             }};
@@ -375,6 +403,8 @@ pub fn run_deflate<Zx: Z>(cfg: &DCfg, input: &[u8], sched: &DSched, env: &Env, e
                         sum_in += din as u64;
                         sum_out += dout as u64;
                         t.calls.push(Call { op: 1, flush: *level * 16 + *strategy, ret, din: din as u32, dout: dout as u32 });
+                        // deflateParams may have flushed with Z_BLOCK internally
+                        prev_rank = prev_rank.max(flush_rank(Z_BLOCK));
                         probe!();
                         if ret == Z_BUF_ERROR {
                             guard += 1;
